@@ -102,5 +102,5 @@ pub fn canary_c17(v: CompressionWithLevel)
 '''),
 ] + TAIL
 
-OBLIGATIONS = {'Compressor::try_from': ['C17']}
+OBLIGATIONS = {'Compressor::try_from': ['C17', 'C09']}
 CANARIES = ['canary_c17']
